@@ -438,6 +438,16 @@ def flow(prop_id, props_file, tier, seed, corr_fn, assumptions, partial_note=Non
         tmp = tempfile.mkdtemp(prefix="rlchk-%s-" % prop_id)
         try:
             corr_fn(res, exe, driver, tier, seed, tmp)
+        except (BuildBroken, InfraError):
+            raise
+        except Exception:
+            # the comparison / oracle code met an answer it cannot read (never on the unchanged tree): the correspondence
+            # no longer checks -- reported as such, with whatever failing inputs were found before
+            import traceback
+            tb = traceback.format_exc()
+            log("the correspondence check could not be completed:", tb[-1500:])
+            res.disagreements.append({"stream": "correspondence of %s (could not be completed)" % prop_id, "case": "",
+                                      "impl": "", "model": "", "why": tb[-3000:]})
         finally:
             shutil.rmtree(tmp, ignore_errors=True)
     except BuildBroken as e:
